@@ -432,6 +432,97 @@ def h_resolved(t: RES_SEL) -> bool:
   return not problems
 
 
+# ---------------------------------------------------------------- h_typevars
+#
+# Type variables the emitter has to declare itself.  In an inferred AST a
+# TypeVar defined inside a class or function body is used in signatures without
+# a module-level declaration, and two scopes may define different TypeVars of
+# the same name (`_T = TypeVar("_T", bound="ThisClass")` in two classes); the
+# real AdjustTypeParameters visitor adds the missing declarations before the
+# stub is printed.  Stub text cannot express that shape (the parser demands
+# module-level TypeVars), so the AST is built from a parsed stub by dropping the
+# module-level declarations and renaming the type parameters with a visitor
+# (a modelled input shape; everything after it is the real code).
+
+# bound of A's variable, bound of B's variable (0 none, 1 int, 2 str, 3 the class
+# itself), B present, a module-level function uses A's variable, declarations
+# kept at module level, both variables get the same name
+TV_SEL = Tuple[(int,) * 6]
+TV_BOUNDS = ["", ", bound=int", ", bound=str", None]
+
+
+def tv_ok(t):
+  return all([inrange(t[0], 0, 4), inrange(t[1], 0, 4), inrange(t[2], 0, 2),
+              inrange(t[3], 0, 2), inrange(t[4], 0, 2), inrange(t[5], 0, 2)])
+
+
+def tv_key(t):
+  key = 0
+  for x, r in zip(t, (4, 4, 2, 2, 2, 2)):
+    key = key * r + x
+  return key
+
+
+class _RenameTypeParameters(visitors.Visitor):
+
+  def VisitTypeParameter(self, t):
+    return t.Replace(name="_T")
+
+
+def tv_build(t):
+  ba, bb = conc(t[0], 4), conc(t[1], 4)
+  has_b, fn, keep, same = conc(t[2], 2), conc(t[3], 2), conc(t[4], 2), conc(t[5], 2)
+  bound = lambda i, cls: (", bound=%s" % cls) if TV_BOUNDS[i] is None else TV_BOUNDS[i]
+  lines = ["from typing import TypeVar", "TA = TypeVar('TA'%s)" % bound(ba, "A")]
+  if has_b:
+    lines.append("TB = TypeVar('TB'%s)" % bound(bb, "B"))
+  lines += ["class A:", "    def f(self, x: TA) -> TA: ..."]
+  if has_b:
+    lines += ["class B:", "    def g(self, x: TB) -> TB: ..."]
+  if fn:
+    lines.append("def h(x: TA) -> TA: ...")
+  text = "\n".join(lines) + "\n"
+  ast0 = parser.parse_string(text)
+  if not keep:
+    ast0 = ast0.Replace(type_params=())
+  if same and not keep:
+    ast0 = ast0.Visit(_RenameTypeParameters())
+  return text, ast0, (has_b, keep, same)
+
+
+def tv_roundtrip(ast0):
+  problems = []
+  ast_r = ast0.Visit(visitors.AdjustTypeParameters())
+  ast_r.Visit(visitors.VerifyVisitor())
+  names = [p.name for p in ast_r.type_params]
+  if len(set(names)) != len(names):
+    problems.append("type parameter declared twice: %r" % (names,))
+  t1 = pytd_utils.Print(ast_r)
+  ast1 = parser.parse_string(t1)
+  ast1.Visit(visitors.VerifyVisitor())
+  t2 = pytd_utils.Print(ast1)
+  if t2 != t1:
+    problems.append("the text printed from the resolved AST is not a fixed point of parse-then-print")
+  c1 = parser.canonical_pyi(t1)
+  if parser.canonical_pyi(c1) != c1:
+    problems.append("canonical_pyi is not idempotent")
+  return problems, t1, t2
+
+
+def h_typevars(t: TV_SEL) -> bool:
+  """
+  pre: tv_ok(t)
+  pre: shard_ok(tv_key(t))
+  post: check_post(_)
+  """
+  text, ast0, spec = tv_build(t)
+  problems, t1, _ = tv_roundtrip(ast0)
+  if "def f(self, x" not in t1:
+    problems.append("method lost")
+  record("V %r/%r N" % (text, spec))
+  return not problems
+
+
 def explain(fn, t):
   if fn == "h_func":
     params, va, kw, ty, ov = func_spec(t)
@@ -439,6 +530,16 @@ def explain(fn, t):
     spec = params
   elif fn == "h_class":
     text, spec = class_text(t)
+  elif fn == "h_typevars":
+    text, ast0, spec = tv_build(t)
+    out = {"stub the AST was derived from": text,
+           "module-level declarations kept / both variables named _T": [bool(spec[1]), bool(spec[2])]}
+    try:
+      problems, t1, t2 = tv_roundtrip(ast0)
+      out.update({"emitted": t1, "re-printed": t2, "problems": problems})
+    except Exception as e:  # pylint: disable=broad-except
+      out["raised"] = "%s: %s" % (type(e).__name__, e)
+    return out
   elif fn == "h_resolved":
     text, adj, spec = res_text(t)
     out = {"stub": text, "pipeline": ["AdjustTypeParameters", "+ AdjustSelf()", "+ AdjustSelf(force=True)"][adj]}
